@@ -312,14 +312,16 @@ func dischargeObligation(p *Prog, fn *ssa.Function, o obligation, opts *boundsOp
 			return true, "sort.Slice contract: less(i, j) is called with 0 <= i, j < len(x)", ""
 		}
 		var failed []goalLE
+		var residuals []residual
 		allTrivial := true
 		for _, g := range o.goals {
 			if triviallyTrue(g) {
 				continue
 			}
 			allTrivial = false
-			if !p.ProveLE(fi, o.instr, facts, g.a, g.b, g.strict, 0) {
+			if ok, res := p.ProveLERes(fi, o.instr, facts, g.a, g.b, g.strict, 0); !ok {
 				failed = append(failed, g)
+				residuals = append(residuals, res...)
 			}
 		}
 		if len(failed) == 0 {
@@ -328,8 +330,8 @@ func dischargeObligation(p *Prog, fn *ssa.Function, o obligation, opts *boundsOp
 			}
 			return true, "facts: " + relevantFacts(facts, o), ""
 		}
-		// lift to callers
-		if ok, how := liftToCallers(p, fn, o, failed, opts, depth); ok {
+		// lift the unproved (sub-)goals to callers
+		if ok, how := liftToCallers(p, fn, o, residuals, opts, depth); ok {
 			return true, how, ""
 		}
 		var ws []string
@@ -385,6 +387,9 @@ func dischargeObligation(p *Prog, fn *ssa.Function, o obligation, opts *boundsOp
 			}
 			t := fi.T(sz)
 			if boundedByInput(p, fi, o.instr, facts, t) {
+				continue
+			}
+			if liftMake(p, fn, t, opts, depth) {
 				continue
 			}
 			return false, "", "allocation size " + t.s + " is not bounded by a length of the input or a constant"
@@ -555,13 +560,13 @@ func sortLessContract(p *Prog, fn *ssa.Function, o obligation) bool {
 	return false
 }
 
-// liftToCallers: substitute actuals for parameters in the failed goals and prove them at every call
-// site of fn inside the scope.
-func liftToCallers(p *Prog, fn *ssa.Function, o obligation, failed []goalLE, opts *boundsOpts, depth int) (bool, string) {
-	if depth >= opts.liftDepth || fn.Parent() != nil {
+// liftToCallers: substitute actuals for parameters in the unproved sub-goals and prove them at every
+// call site of fn inside the scope; the parameter-rooted facts under which a sub-goal is needed are
+// carried along as assumptions.
+func liftToCallers(p *Prog, fn *ssa.Function, o obligation, failed []residual, opts *boundsOpts, depth int) (bool, string) {
+	if depth >= opts.liftDepth || fn.Parent() != nil || len(failed) == 0 {
 		return false, ""
 	}
-	// all goal terms must be rooted in parameters (or constants)
 	for _, g := range failed {
 		if !paramRooted(g.a) || !paramRooted(g.b) {
 			return false, ""
@@ -586,13 +591,18 @@ func liftToCallers(p *Prog, fn *ssa.Function, o obligation, failed []goalLE, opt
 				m[prm.Name()] = cfi.T(args[i])
 			}
 		}
-		facts := factsFor(p, cs.Caller, cs.Instr, opts)
+		base := factsFor(p, cs.Caller, cs.Instr, opts)
 		for _, g := range failed {
+			facts := append([]Atom{}, base...)
+			for _, as := range g.assume {
+				if paramRooted(as.L) && paramRooted(as.R) {
+					facts = append(facts, mkAtom(as.Op, as.L.subst(m), as.R.subst(m)))
+				}
+			}
 			a, b := g.a.subst(m), g.b.subst(m)
-			if !p.ProveLE(cfi, cs.Instr, facts, a, b, g.strict, 0) {
-				// one more level
-				o2 := obligation{kind: o.kind, instr: cs.Instr, desc: o.desc, key: o.key, goals: []goalLE{{a, b, g.strict, g.what}}}
-				if ok, _ := liftToCallers(p, cs.Caller, o2, o2.goals, opts, depth+1); !ok {
+			ok, res := p.ProveLERes(cfi, cs.Instr, facts, a, b, g.strict, 0)
+			if !ok {
+				if ok2, _ := liftToCallers(p, cs.Caller, o, res, opts, depth+1); !ok2 {
 					return false, ""
 				}
 			}
@@ -663,4 +673,36 @@ func paramRooted(t *Term) bool {
 		}
 	})
 	return ok
+}
+
+// liftMake: an allocation size that is a parameter is bounded at every call site.
+func liftMake(p *Prog, fn *ssa.Function, t *Term, opts *boundsOpts, depth int) bool {
+	if depth >= opts.liftDepth || fn.Parent() != nil || !paramRooted(t) {
+		return false
+	}
+	n := 0
+	for _, cs := range p.CG().Callers(fn) {
+		if !opts.scope[origin(cs.Caller)] {
+			continue
+		}
+		if cs.Instr.Common().IsInvoke() {
+			return false
+		}
+		n++
+		cfi := p.Info(cs.Caller)
+		m := map[string]*Term{}
+		for i, prm := range fn.Params {
+			if i < len(cs.Instr.Common().Args) {
+				m[prm.Name()] = cfi.T(cs.Instr.Common().Args[i])
+			}
+		}
+		tt := t.subst(m)
+		if tt.K == TConst {
+			continue
+		}
+		if !boundedByInput(p, cfi, cs.Instr, factsFor(p, cs.Caller, cs.Instr, opts), tt) && !liftMake(p, cs.Caller, tt, opts, depth+1) {
+			return false
+		}
+	}
+	return n > 0
 }
